@@ -13,10 +13,10 @@ CHECKS = {
  "C01": dict(engine="E1", technique="runtime monitoring: seeded operation histories against the real store in a child process, reference-model comparison after every step (both read paths, get, sweeps)",
              text="Exploration: thousands of generated histories (append/import/remove/clock/GC/reopen/kill/bulk) with every read shape compared against an executable model; reaches memtable-only, flushed-segment, rotated-journal and reopened layouts (read from the directory). It shows the property on the executions observed and catches order/limit/last-id/expiry/context mistakes a dozen unit histories cannot.",
              note=E1_NOTE, ref="§7 E1, §8 C01"),
- "C05": dict(engine="E1", technique="runtime monitoring: histories over adversarial topics/contexts; three-path agreement, head exactness and raw three-partition invariant checked at quiescent points",
+ "C05": dict(engine="E1", technique="runtime monitoring: histories over adversarial topics/contexts; three-path agreement, head exactness and raw three-partition invariant checked at quiescent points; concurrent leg: head lookups while the newest frames of the topic are removed",
              text="Exploration over topic strings built around the ctx||topic||0x00||id key layout and adjacent context ids; at every quiescent sweep get/all-stream/context-stream agreement, head == last of the observed context stream, and the structural index invariant via the raw-key hook.",
              note=E1_NOTE, ref="§7 E1, §8 C05"),
- "C07": dict(engine="E1", technique="runtime monitoring: context-registration histories with clean and SIGKILL reopen; append accept/reject vs model, probes of every known context id, no-trace checks via raw keys and a live follower",
+ "C07": dict(engine="E1", technique="runtime monitoring: context-registration histories with clean and SIGKILL reopen; append accept/reject vs model, probes of every known context id, no-trace checks via raw keys and a live follower; concurrent leg: a registration removed while other threads append into its context",
              text="Exploration of register / unregister / import-registration / append histories with process restarts; the usable-context set is recomputed from stored frames by the model and compared with real accept/reject outcomes before and after every reopen.",
              note=E1_NOTE, ref="§7 E1, §8 C07"),
  "C08": dict(engine="E1", technique="runtime monitoring: TTL histories under a virtual clock, must-survive oracle over get / both read paths / raw keys",
@@ -41,7 +41,7 @@ CHECKS.update({
              note=E2_NOTE, ref="§7 E2, §8 C11, App. A.8"),
 })
 
-CHECKS["C12"] = dict(engine="E6", technique="runtime monitoring: generated TTL / ReadOptions / Frame values and grammar-neighbour strings through every spelling; accepted frames pushed through a real store (append, import, reads, reopen) with panic detection",
+CHECKS["C12"] = dict(engine="E6", technique="runtime monitoring: generated TTL / ReadOptions / Frame values and grammar-neighbour strings through every spelling; accepted frames pushed through a real store (append, import, reads, reopen) with panic detection; wire legs through the client library (unix socket and loopback TCP) and the command-line client; Miri leg for the TTL codec (thorough)",
              text="Exploration of the wire-reachable value domains (10^5 cases per run) with round-trip oracles, plus a store leg in a child process that offers frames around serde_json's 128-level recursion limit and checks that whatever was accepted is read back identically by both read paths before and after a reopen.",
              note="Trusted base: Rust PartialEq on TTL/ReadOptions/Frame; the float domain is restricted to exactly re-parsable values (DESIGN §9).", ref="§7 E6, §8 C12")
 
@@ -61,7 +61,7 @@ CHECKS["C15"] = dict(engine="E5", technique="runtime monitoring: generated handl
 CHECKS["C16"] = dict(engine="E5", technique="runtime monitoring: lifecycle automaton over the recorded frame log; announce/subscribe race forced with a delay hook at the handler task's start",
              text="Exploration of register / replace / invalid / unregister / failing-trigger sequences on several names and contexts with a client that triggers the moment it sees .registered while the handler task is delayed 0-20 ms before subscribing.",
              note=E5_NOTE, ref="§7 E5, §8 C16")
-CHECKS["C18"] = dict(engine="E5", technique="runtime monitoring: generator trace specification (start recv* stop)* over the recorded frame log; duplex exactly-once/in-order token check",
+CHECKS["C18"] = dict(engine="E5", technique="runtime monitoring: generator trace specification (start recv* stop)* over the recorded frame log; duplex exactly-once/in-order token check (text and arbitrary bytes); fault case: appends failing during a lifecycle",
              text="Exploration of string-producing generator expressions over several lifecycles, refused spawns and duplex input interleaved with unrelated traffic; any panic of a generator thread is a violation because only in-quantifier expressions are generated.",
              note=E5_NOTE, ref="§7 E5, §8 C18")
 CHECKS["C19"] = dict(engine="E5", technique="runtime monitoring: command-call trace specification over the recorded frame log with argument-tagged outputs and overlapping calls",
@@ -75,14 +75,14 @@ CHECKS["C17"] = dict(engine="E5", technique="runtime monitoring: real serve proc
 CHECKS["C06"] = dict(engine="E5", technique="runtime monitoring: context-tagged traffic on a real serve process; every scoped observation (Store API, followers, HTTP routes incl. head-follow, handler/command/generator outputs, .cat/.head inside scripts) checked for foreign tags",
              text="Exploration with five contexts (zero, appended, numerically adjacent ids registered by import), identical topics everywhere and a tag in every frame, so that a leak is visible in the observation itself; covers history and live delivery, all read options, both HTTP renderings, head-follow, handler dispatch, script-level visibility and forced output contexts.",
              note=E5_NOTE, ref="§8 C06")
-CHECKS["C10"] = dict(engine="E5", technique="runtime monitoring: entry-point x byte-string matrix with an independent SHA-256; immediate content reads by followers and a handler racing concurrent HTTP writers under append jitter; SIGKILL + reopen content audit",
+CHECKS["C10"] = dict(engine="E5", technique="runtime monitoring: entry-point x byte-string matrix with an independent SHA-256; immediate content reads by followers and a handler racing concurrent HTTP writers under append jitter; SIGKILL + reopen content audit; first-writer cases (a script entry point is the first writer of a content); non-UTF-8 content through .cas / .append",
              text="Exploration of twelve content entry points with boundary-sized byte strings and texts, checking reported hashes against the sha2 crate, byte-exact read-back (also after restart), content availability at the moment of delivery, and content presence for every frame visible after a process kill.",
              note=E5_NOTE + " Expected hashes are computed by the harness, not by ssri/cacache.", ref="§8 C10")
 CHECKS["C20"] = dict(engine="E1", technique="runtime monitoring: export of an E1-generated store, permuted/duplicated import through the real HTTP API, full observational-equality sweep (incl. raw partitions and usable-context probes) between source and target",
              text="Exploration of source histories and import orders; equality is checked on everything the other properties observe (both read paths, get, heads, raw index partitions, CAS bytes, accept/reject of appends per context id), plus idempotence of re-import and whole rejection of NUL-topic frames.",
              note=E1_NOTE, ref="§8 C20")
 
-CHECKS["C04"] = dict(engine="E3", category="fault_enumeration", technique="runtime monitoring with fault enumeration: strace-recorded storage syscalls replayed into kill / torn-write / power-loss crash images at every effective syscall boundary, each recovered by the real Store::new and compared with the model of the acknowledged operations; plus live SIGKILLs",
+CHECKS["C04"] = dict(engine="E3", category="fault_enumeration", technique="runtime monitoring with fault enumeration: strace-recorded storage syscalls replayed into kill / torn-write / power-loss crash images at every effective syscall boundary, each recovered by the real Store::new and compared with the model of the acknowledged operations; plus live SIGKILLs and SIGKILLs of a server under parallel HTTP appends (content present for every visible hash)",
              text="Fault enumeration: within a recorded execution every syscall that changes the store directory is a crash point (with cuts inside writes and a stated power-loss model), so the all-or-nothing and acknowledged-writes-survive clauses are decided at system-call granularity on the real recovery code; across executions (histories, layouts) it is sampling. A fidelity self-check ties the emulator to the live directory.",
              note="Trusted base: strace's log as the total order of storage syscalls and acknowledgements; the file-system emulator in crash/replay.py (self-checked against the live directory on every run); the stated power-loss model; CAS content copied from the live directory after its publishing rename.", ref="§7 E3, §8 C04, App. A.9")
 
